@@ -110,6 +110,13 @@ def Val.pkgMeta : Val → M PkgMeta
   | .pkginfo p l => pure ⟨p, l⟩
   | _ => raise .validation
 
+/-- `MetadorMeta._parse_obj(schema_class, value)` for a value given by the caller: pydantic accepts it or not -/
+def parseValue (v : Bool × String) : M String := if v.1 then pure v.2 else raise .validation
+/-- `MetadorMeta._parse_obj(schema_class, node[()])` for stored bytes: the class they are parsed with, the bytes -/
+def parseStored (cls : SInfo) : Val → M (SRef × String)
+  | .data tok => pure (cls.ref, tok)
+  | _ => raise .validation
+
 /-! ## names -/
 
 /-- `node.name.split("/")[-1]` of a group below `links/`, read as an entry-point name -/
